@@ -228,7 +228,14 @@ async def _run(case, out):
 
             manager.blob_completed = counting
             blob = manager.get_blob(blob_hash, ctor_len)
-        if announce != "ctor" and dmode != "none":
+        # late announcement: the length becomes known only after `late_after` schedule ops (a writer that writes earlier gets
+        # OSError('unknown blob length') and that chunk is lost: it must not count towards length or hash later on)
+        late_after = case["declared"].get("late_after")
+        if not (late_after is not None and announce == "set_length" and n_eff is not None and dmode not in ("none", "over_max")):
+            late_after = None
+        if late_after is not None:
+            out.label("late_announcement")
+        if announce != "ctor" and dmode != "none" and late_after is None:
             if announce == "get_blob_again" and manager is not None:
                 b2 = manager.get_blob(blob_hash, declared)
                 out.check(b2 is blob, "manager-returns-different-blob-object", "second get_blob gave another object")
@@ -237,7 +244,9 @@ async def _run(case, out):
             else:
                 blob.set_length(declared)
         got_len = blob.get_length()
-        if dmode == "over_max":
+        if late_after is not None:
+            out.check(got_len is None, "length-known-before-announcement", "%r" % got_len)
+        elif dmode == "over_max":
             if not out.check(got_len is None, "oversize-length-accepted",
                              "set_length(%d) -> get_length() == %r" % (declared, got_len)):
                 return
@@ -355,7 +364,15 @@ async def _run(case, out):
             st_.epoch += 1
 
         # ---- generated schedule
-        for op in case["schedule"]:
+        def announce_late():
+            blob.set_length(declared)
+            out.check(blob.get_length() == declared, "declared-length-not-taken",
+                      "late set_length(%r) -> get_length() == %r" % (declared, blob.get_length()))
+
+        for opno, op in enumerate(case["schedule"]):
+            if late_after is not None and opno == late_after:
+                announce_late()
+                late_after = None
             code = op[0]
             if code == "w" and writers:
                 do_write(writers[op[1] % len(writers)])
@@ -387,7 +404,7 @@ async def _run(case, out):
                 st_.ops += 1
                 open_writer(spare.pop(0), PEERS[next_peer[0]])
                 next_peer[0] += 1
-            elif code == "l" and n_eff is not None:
+            elif code == "l" and n_eff is not None and late_after is None:
                 st_.ops += 1
                 other = max(0, min(MIB2, (n_eff or 0) + op[1]))
                 blob.set_length(other)
@@ -396,6 +413,9 @@ async def _run(case, out):
                           "length %d became %r after set_length(%d)" % (n_eff, blob.get_length(), other))
             step_check("after op %r" % (op,))
 
+        if late_after is not None:
+            announce_late()
+            late_after = None
         # ---- tail: flush what is left
         tail = case["tail"]
         if tail in ("rr", "rr_yield"):
@@ -495,6 +515,39 @@ async def _run(case, out):
                           "reader gave %d bytes, content has %d" % (len(got), size))
             out.check(blob.get_length() == size, "verified-length-wrong",
                       "get_length() %r, content %d" % (blob.get_length(), size))
+
+        # ---- second download on the same blob object (history): after the verified copy was consumed (in-memory blob: the
+        # reader above hands the bytes out once and un-verifies it) or deleted (file blob), a new correct copy must verify again
+        if case.get("again") and verified and kind in ("file", "buffer") and not out.violations:
+            if kind == "file":
+                blob.delete()
+                blob.set_length(size)
+            ok_state = not blob.get_is_verified() and blob.get_length() in (size, None)
+            if ok_state:
+                if blob.get_length() is None:
+                    blob.set_length(size)
+                try:
+                    w2 = blob.get_blob_writer("9.9.9.9", 9999)
+                    half = max(1, size // 2)
+                    w2.write(content[:half])
+                    if size > half:
+                        w2.write(content[half:])
+                except Exception as e:  # noqa
+                    out.violate("second-download:write-raises:%s" % type(e).__name__, repr(e)[:200])
+                else:
+                    await do_yield(3)
+                    await barrier(loop)
+                    await barrier(loop)
+                    if not blob.get_is_verified():
+                        out.violate("second-download:not-verified-after-correct-copy",
+                                    "%s blob, %d bytes: correct copy delivered again after %s, blob not verified" % (
+                                        kind, size, "delete()" if kind == "file" else "the reader consumed it"))
+                    elif kind == "file":
+                        with open(path, "rb") as f:
+                            out.check(f.read() == content, "second-download:stored-bytes-wrong", "")
+                    out.label("second_download")
+            else:
+                out.label("second_download_skipped:still-verified")
 
         # ---- classification
         out.label("blob:" + kind, "declared:" + dmode, "announce:" + announce,
@@ -597,7 +650,8 @@ def case_strategy(draw, big=False, tier="quick"):
         content = {"size": size, "seed": draw(st.integers(0, 9999))}
     dm = draw(st.sampled_from(["exact"] * 16 + ["minus", "plus", "over_max", "zero", "none"]))
     declared = {"mode": dm, "k": draw(st.sampled_from([1, 1, 2, 15, 16, 17, 100])),
-                "announce": draw(st.sampled_from(["ctor", "ctor", "set_length", "get_blob_again"]))}
+                "announce": draw(st.sampled_from(["ctor", "ctor", "set_length", "get_blob_again"])),
+                "late_after": draw(st.sampled_from([None, None, None, 1, 2, 3, 5]))}
     blob_kind = draw(st.sampled_from(["file", "file", "buffer", "manager_file", "manager_buffer"]))
     n_initial = draw(st.sampled_from([1, 2, 2, 3, 3]))
     n_spare = draw(st.integers(0, 3))
@@ -616,7 +670,7 @@ def case_strategy(draw, big=False, tier="quick"):
     schedule = [list(x) for x in draw(st.lists(op, min_size=0, max_size=30 if not big else 12))]
     tail = draw(st.sampled_from(["rr", "rr", "rr_yield", "seq", "seq_rev", "none"]))
     return {"content": content, "declared": declared, "blob_kind": blob_kind, "n_initial": n_initial,
-            "writers": writers, "schedule": schedule, "tail": tail}
+            "writers": writers, "schedule": schedule, "tail": tail, "again": draw(st.sampled_from([False, False, True]))}
 
 
 PARTS = [
